@@ -675,4 +675,26 @@ theorem noNulO_of_nulFreeO : ∀ kvs, nulFreeO kvs = true → NoNulO kvs
     exact ⟨noNulB_lit h.1.1, noNul_of_nulFreeB v h.1.2, noNulO_of_nulFreeO r h.2⟩
 end
 
+
+/-! ### parse after dump -/
+
+theorem fuel_suffices (v : Json) (hv : RT v) (ind cur : Bytes) : need v ≤ parseFuel (dump ind cur v).length := by
+  have := bound_val v hv ind cur
+  unfold parseFuel; omega
+
+theorem allWs_replicate (n : Nat) : AllWs (List.replicate n cSp) := by
+  intro c hc
+  rw [List.eq_of_mem_replicate hc]; decide
+
+theorem parse_dump (v : Json) (hv : RT v) (hn : NoNul v) (ind : Bytes) (hi : AllWs ind) :
+    ∃ v', parse (dump ind [] v) = .ok v' ∧ jsonEq v v' = true := by
+  have hnn := noNul_dump v hv hn ind [] hi allWs_nil
+  obtain ⟨v', hl, he⟩ := rt_val v hv ind [] [] (parseFuel (dump ind [] v).length) hi allWs_nil (Or.inl rfl)
+    (fuel_suffices v hv ind [])
+  refine ⟨v', ?_, he⟩
+  simp only [List.append_nil] at hl
+  unfold parse
+  simp only [cstr_of_noNul hnn, hl]
+
+
 end Occa.Json
